@@ -929,6 +929,11 @@ class Interp:
 
     def op_completely_blocked(self, i):
         a = self.pick(i)
+        # a named leg 'x' next to a leg already named '(x)' can not be blocked without relabeling: the pipe label '(x)' would
+        # be a duplicate (clean ValueError of the library) - outside of the sound domain
+        for k, l in enumerate(a.labels):
+            if l is not None and '(' + l + ')' in a.labels and not a.arr.legs[k].is_blocked():
+                raise SkipOp()
         axes, res = a.arr.as_completely_blocked()
         require(all(res.legs[k].is_blocked() for k in range(res.rank)), 'not-blocked', '', op=self.opname)
         if len(axes) == 0:
